@@ -307,6 +307,7 @@ structure Inv (s : State) : Prop where
   covMainW : ∀ w, (s.wk w).kind = .main → inflightP (s.wk w) = true → (s.wk w).seq0 = s.mainSeq → covM s = true
   covMain : s.mainWoken = true → covM s = true
   kq : s.cfg.drv = .iour → s.rt ≠ .clear → s.arm = .live → 0 < s.efd → s.cq = true
+  cqLive : s.cq = true → s.arm = .live
   armW : s.cfg.drv = .iour → s.rt = .wait → s.arm = .live
   armS : s.cfg.drv = .iour → s.rt = .submit → s.arm ≠ .needPush
   armXW : s.cfg.drv = .iour → (s.rt = .xwait ∨ s.rt = .xreset) → s.arm = .live
